@@ -1,5 +1,7 @@
 import CrdtModel.Audit.Tool
+import CrdtModel.Props.SysMerkle
 import CrdtModel.Props.Addenda
 import CrdtModel.Witness.NestedMore
 import CrdtModel.Props.C15
 #audit_ns Crdt.C15
+#audit_ns Crdt.SysMerkle
